@@ -12,7 +12,16 @@ PROPS["C10"]["rule"] = (
     "the complex and the real plan cache through the public API (FftPlan / FftPlanR), 2^26 + 2^13 requests each quick, 2^32 + 2^21 each thorough: hits on hot lengths with full key comparison (hook) every "
     "2^16 requests, a burst with evictions every 2^20, and lock-step windows of 48 mixed requests (hook after every request, replayed by the Lean model from the window's start state) around every power of two "
     "up to 2^32 and the later points above; operation counts in the statistics soak_*_operations / soak_*_requests; VERIF_C10_SOAK=full runs the 2^32 soak in the quick tier; "
+    "N-POINT / DERIVED CALLS (third round): four more 11..13-letter alphabets, all histories of length <= 3 (thorough 4): fft(x_cmplx, n), fft(x_real, n), rfft(x, n) with inputs SHORTER, EQUAL and LONGER than n "
+    "— several input lengths for ONE n (64, 60, 97, 16) within a history, every order; welch (real, complex) and mscohere with window lengths 48/16/64, 32/12 at nfft 64, sinad (periodogram, 48 and 40 samples -> nfft 64), "
+    "hilbert(x, n), a rejected welch call (nfft not a power of two); calls that pad internally: xcorr (real, complex), FftFilter with 8/5/17 taps, finddelay, resample; every n <= 40 (thorough 130) x {complex, real}: "
+    "inputs of n-1, 1, n+3, n/2, n, n/2+1 samples at that n as the first calls of a thread; single calls of 2^16 / 2^17 / 3*2^16 samples after small ones and short inputs after them at the same n; the random histories "
+    "contain bursts of 2..4 n-point / spectral calls at one n with different input lengths and internally padding calls; the Lean model replays which plan each of these calls requests (one request for n whatever the input length; "
+    "xcorr / FftFilter / finddelay / sinad: 2^nextpow2 of the padded length); witnesses name every call in words and carry the input generators (and the failing call's input array); "
+    "CONCURRENT HISTORIES: 3 (thorough 12) batches of 8 histories of 500 (1500) calls run at the same time, one fresh thread each, on inverse-real lengths that differ between the threads (irfft full / half spectrum, "
+    "2..31 identical irfft calls in a row, IfftPlanR objects, rejected odd lengths, n-point calls, hilbert, stft round trips): same bits as alone, same key lists (lock-step with the Lean model per thread); "
+    "statistics npoint_calls_input_*, padded_calls_after_a_longer_input_at_the_same_n, histories_run_concurrently, phase_ms_*; "
     "distinct = distinct histories (every enumerated sequence is different); non-trivial = all")
 PROPS["C10"]["level_note"] += (
     "; the soak reaches histories of > 2^32 requests by running them (about 1-3 minutes), between the lock-step windows the flat reference LRU of the harness (power-of-two lengths only: no nested "
-    "requests) stands in for the Lean model, with which it is re-synchronised and compared at every window; rejected calls are modelled by the plan requests they make before throwing")
+    "requests) stands in for the Lean model, with which it is re-synchronised and compared at every window; rejected calls are modelled by the plan requests they make before throwing; the inputs of a call are a fixed function of its lengths (generators xc / xr), so 'depends only on its arguments' is tested on one input per length pair; the concurrent batches show races only with the probability the scheduler gives them (8 threads, about 10^4 inverse-real plan constructions each per batch)")
